@@ -420,6 +420,30 @@ func p2Mutations(a *p2Archive, family string, slice int, rng *rand.Rand) []p2Mut
 			add(fn+" emptied of packets", false, func(f map[string][]par2rw.Packet) { f[fn] = nil })
 		}
 	}
+	if family == "structure" {
+		add("ALL recovery packets removed from every volume (volumes stay well-formed)", false, func(f map[string][]par2rw.Packet) {
+			for _, nme := range a.names[1:] {
+				var out []par2rw.Packet
+				for _, q := range f[nme] {
+					if q.Type != par2rw.TypeRecv {
+						out = append(out, q)
+					}
+				}
+				f[nme] = out
+			}
+		})
+		add("every volume reduced to its creator packet", false, func(f map[string][]par2rw.Packet) {
+			for _, nme := range a.names[1:] {
+				var out []par2rw.Packet
+				for _, q := range f[nme] {
+					if q.Type == par2rw.TypeCreator {
+						out = append(out, q)
+					}
+				}
+				f[nme] = out
+			}
+		})
+	}
 	return ms
 }
 
